@@ -168,7 +168,8 @@ func evalPureStmtBlock(vm *r.VM, stmtBlock *syntax.StmtBlock) (r.Element, error)
 	blockScope := vm.BeginScope()
 	defer blockScope.EndScope()
 
-	var rtnValue r.Element
+	// a block that holds definitions only evaluates no statement: it yields 空
+	var rtnValue r.Element = value.NewNull()
 	var err error
 
 	for _, stmt := range stmtBlock.Children {
